@@ -11,7 +11,7 @@ from vf.ref.view import view_xml
 
 LEVEL = "fault_enumeration"
 RULE = ("session scripts of 2-3 concurrent connections (handshake, enableBLOB Never/Also/Only, client writes, device text and BLOB "
-        "traffic; 8-12 steps) on real connection handlers driven through fake streams (TCP: ConnectionHandler.handler(router) on a "
+        "traffic; 8-12 steps; 5 hand-written scripts, thorough adds 40 generated ones) on real connection handlers driven through fake streams (TCP: ConnectionHandler.handler(router) on a "
         "StreamReader + FakeWriter; TTY: ConnectionHandler.handle() on a fake stdin/stdout; mixed) x fault in {EOF, read error, EOF "
         "inside a message, junk then EOF, exception while one of its messages is handled, write+drain error on the peer followed by a "
         "reset} injected at EVERY step index. Monitors after the fault and after every later step: Router.clients, "
@@ -352,7 +352,29 @@ def one_case(ctx, case):
              sample={"script": SCRIPTS[case["script"]][1][:6], "mix": case["mix"], "fault": case["fault"], "position": case["pos"], "victim": case["victim"]})
 
 
+def gen_script(rng):
+    nconn = rng.choice([2, 3])
+    steps = []
+    for _ in range(rng.choice([8, 10, 12])):
+        r = rng.random()
+        c = rng.randrange(nconn)
+        if r < 0.2:
+            steps.append(("hs", c))
+        elif r < 0.4:
+            steps.append(("blob", c, rng.choice(["Never", "Also", "Only"])))
+        elif r < 0.55:
+            steps.append(("write", c))
+        elif r < 0.8:
+            steps.append(("dtext",))
+        else:
+            steps.append(("dblob",))
+    return nconn, steps
+
+
 def run(ctx):
+    if ctx.thorough:
+        for k in range(40):
+            SCRIPTS.append(gen_script(ctx.rng("script", k)))
     i = 0
     for si, (nconn, steps) in enumerate(SCRIPTS):
         mixes = MIXES2 if nconn == 2 else MIXES3
@@ -374,4 +396,6 @@ def exhaustive(ctx):
 
 
 def replay(ctx, case):
+    while len(SCRIPTS) <= case["script"]:
+        SCRIPTS.append(gen_script(ctx.rng("script", len(SCRIPTS) - 5)))
     one_case(ctx, case)
